@@ -5,7 +5,7 @@ For each seed: copy /repo/src to a scratch directory outside /repo and /verif, a
 run the quick check of the property the seed targets with VERIF_REPO pointing at the copy (must exit 1 with a
 VIOLATION line), delete the copy.
 
-usage: seeded_selftest.py [--only S01,S02] [--par 3] [--jobs 5] [--tier quick]
+usage: seeded_selftest.py [--only S01,S02] [--par 3] [--jobs 5] [--tier quick] [--keep]
 """
 import argparse
 import concurrent.futures as cf
@@ -24,6 +24,7 @@ ap.add_argument("--only", default=None)
 ap.add_argument("--par", type=int, default=3)
 ap.add_argument("--jobs", type=int, default=5)
 ap.add_argument("--tier", default="quick")
+ap.add_argument("--keep", action="store_true", help="copy each shrunk failing case to replays/<prop>/regress/<sid>__<obligation>.json")
 a = ap.parse_args()
 only = set(a.only.split(",")) if a.only else None
 
@@ -43,6 +44,21 @@ def one(d):
                            env=dict(os.environ, VERIF_REPO=tmp, VERIF_SEED=os.environ.get("VERIF_SEED", "1")),
                            capture_output=True, text=True)
         lines = [l for l in r.stdout.splitlines() if l.startswith("  [")]
+        if a.keep and r.returncode == 1:
+            for l in r.stdout.splitlines():
+                if l.startswith("VIOLATION property=%s" % prop) and "replay=" in l:
+                    src = l.split("replay=", 1)[1].strip()
+                    if "/regress/" in src:
+                        continue  # an already committed replay caught it
+                    try:
+                        doc = json.load(open(src))
+                        doc["from_seeded_change"] = sid
+                        ob = "".join(ch if ch.isalnum() else "_" for ch in doc["obligation"])[:40]
+                        dst = os.path.join(VERIF, "replays", prop, "regress")
+                        os.makedirs(dst, exist_ok=True)
+                        json.dump(doc, open(os.path.join(dst, "%s__%s.json" % (sid, ob)), "w"), indent=1, sort_keys=True)
+                    except Exception as e:  # noqa: BLE001
+                        print("could not keep", src, e)
         status = "CAUGHT" if r.returncode == 1 and "VIOLATION property=%s" % prop in r.stdout else (
             "ERROR" if r.returncode == 2 else "MISSED")
         return sid, prop, status, time.time() - t, (lines[0][:150] if lines else r.stderr[-200:])
